@@ -288,6 +288,7 @@ def run(ctx):
             continue
         reb = ExprBuilder(rb)
         good_last = good_rec = False
+        range_bad = False
         for bb, i, st, tgt, root, chain, val in stores(rb, reb):
             # out.iter_mut().zip(self.windows(2)): element i of the output with the pair (in[i], in[i+1])
             if key == "b2mc" and tgt[0] == "field" and tgt[2] == "0" and tgt[1][0] == "field" and tgt[1][2] == "0" and tgt[1][1][0] == "variant" \
@@ -315,10 +316,23 @@ def run(ctx):
                 continue
             idx = tgt[2]
             vs = show(val)
+            _len = lambda e: ("LEN",) if e[0] == "len" and show(e[1]) == "self" else None
             if "last" in show(idx) or (idx[0] == "bin"):
                 if val[0] == "idx" and canon(val[2]) == canon(idx) and show(val[1]) == "self":
-                    good_last = True
+                    # ... and `last` is the last element
+                    if to_poly(idx, _len) == Poly.atom(("LEN",)) - Poly.const(1):
+                        good_last = True
+                    else:
+                        ctx.fail("C14-R2", fn, "last element", "%s copies element %s, expected the last one (len - 1)" % (key, show(idx)[:60]), cm.loc_of(st["span"]))
                     continue
+            # the recurrence covers every element below the last: i runs over 0 .. len - 1
+            from ..loops import loop_var_parts as _lvp
+            lv_ = _lvp(idx)
+            if lv_ is not None:
+                d_, s_, e_ = lv_
+                if not (to_poly(s_, _len) == Poly.const(0) and to_poly(e_, _len) == Poly.atom(("LEN",)) - Poly.const(1)):
+                    ctx.fail("C14-R2", fn, "recurrence range", "%s computes elements %s..%s only, expected 0..len-1 (every element below the last)" % (key, show(s_)[:30], show(e_)[:40]), cm.loc_of(st["span"]))
+                    range_bad = True
             # recurrence: out[i] = self[i] +/- alpha * X[i+1]
             def atomize(e, idx=idx, tgt=tgt):
                 if e[0] == "idx":
@@ -367,6 +381,8 @@ def run(ctx):
             if not copy_ok:
                 ctx.fail("C14-R2", fn, "conditional conversion", "%s writes its result only under `%s`, and the buffer it starts from is not a copy of the input: otherwise the result is that initial buffer (zeros)" % (key, guarded[0][0]), guarded[0][1])
                 good_rec = False
+        if range_bad:
+            good_rec = False
         if good_rec and good_last:
             rec[key] = True
             ctx.ok("C14-R2", "%s: out[last] = in[last]; out[i] = in[i] %s alpha*%s[i+1]" % (key, "+" if sign > 0 else "-", "in" if key == "b2mc" else "out"), rb.loc())
